@@ -38,7 +38,7 @@ void run_C04(vh::Ctx& c) {
     c.nontrivial(vh::fnv_str(what));
 
     Problem p(P);
-    p.set_mask(mask);
+    p.set_mask(mask, r.pick(120));   // the five setters in a random order
     p.Set_GSL_step(sm.type); p.Set_AdaptiveStep(sm.adaptive);
     p.Set_rel_error(tol); p.Set_abs_error(tol); p.Set_h(1e-3 * r.uni(0.5, 2)); p.Set_NumSteps(nsteps);
     // initial state
